@@ -72,6 +72,33 @@ def check(ctx):
                     ctx.violation('R1.no_truncate_of_final_file', w, 'the checkpoint is written to a path that '
                                   'is not derived from `filename_`', {'opened': T.pretty(path)[:200]})
                     continue
+                # the path must differ from filename_ for EVERY file name: filename_ with a non-empty
+                # literal appended / prepended always does; a name computed from parts of filename_
+                # (extension replaced, directory changed, ...) coincides with it for some file names
+                def concat_parts(t):
+                    if isinstance(t, tuple) and t and t[0] == '+':
+                        return concat_parts(t[1]) + concat_parts(t[2])
+                    return [t]
+                always_diff = True
+                for lf in leaves(path):
+                    parts = concat_parts(lf)
+                    lits = [x for x in parts if isinstance(x, tuple) and x and x[0] in ('str', 'chr') and x[1] != '']
+                    if not (parts.count(final) == 1 and lits and
+                            all(x == final or (isinstance(x, tuple) and x and x[0] in ('str', 'chr')) for x in parts)):
+                        always_diff = False
+                if not always_diff:
+                    lossy = any(isinstance(x, tuple) and x and x[0] == 'strop' for x in T.subterms(path))
+                    if lossy:
+                        ctx.violation('R1.no_truncate_of_final_file', w, 'the name of the temporary file is computed '
+                                      'from a part of `filename_` (%s): for some file names it is `filename_` itself '
+                                      '(e.g. a checkpoint called x.tmp when the extension is replaced by .tmp), and '
+                                      'then the only durable copy is truncated and rewritten in place'
+                                      % T.pretty(path)[:160],
+                                      {'abstract_counterexample': 'filename_ = the value the expression yields for '
+                                       'some other name, e.g. "run.tmp"', 'opened': T.pretty(path)[:200]})
+                        continue
+                    raise AnalysisBroken('%s: cannot show that the temporary path %s differs from filename_ for '
+                                         'every file name' % (w, T.pretty(path)[:120]))
                 ctx.holds('R1.no_truncate_of_final_file', w, 'data are written to a different path derived '
                           'from filename_ (%s), never to the final file' % T.pretty(path)[:80])
                 # serialize into that stream, then close, then rename(tmp, final)
